@@ -6,16 +6,30 @@ Output: one `NE …` line per disagreement, then `#stats` / `#regime` lines.
 import Sds.Driver.Bits
 import Sds.Driver.Vec
 import Sds.Driver.Bv
+import Sds.Driver.Sparse
 
 namespace Sds.Driver
 open Sds Outcome
 
-def evalRecipe (st : DState) (toks : List String) : Eval :=
+/-- token-wise comparison with wildcards in the expected string: `*` matches any single token *or*, as the last
+token, the whole rest; `abc*` matches any token with that prefix -/
+def matchToks : List String → List String → Bool
+  | [], [] => true
+  | ["*"], _ => true
+  | e :: es, a :: as =>
+    (e == a || e == "*" || (e.endsWith "*" && a.startsWith (e.dropEnd 1).toString)) && matchToks es as
+  | _, _ => false
+
+def agrees (expected actual : String) : Bool :=
+  matchToks ((expected.splitOn " ").filter (· ≠ "")) ((actual.splitOn " ").filter (· ≠ ""))
+
+def evalRecipe (st : DState) (toks : List String) (impl : String) : Eval :=
   match toks with
   | "bits" :: rest => evalBits st rest
   | "raw" :: name :: rest => evalRaw st name rest
   | "iv" :: name :: rest => evalIv st name rest
   | "bv" :: name :: rest => evalBv st name rest
+  | "sp" :: name :: rest => evalSparse st name rest impl
   | _ => { st := st, model := "driver:unknown-op" }
 
 structure Stats where
@@ -49,7 +63,7 @@ partial def loop (h : IO.FS.Stream) (st : DState) (stats : Stats) (lineNo : Nat)
       | r :: rest => (r, " => ".intercalate rest)
       | [] => ("", "")
     let toks := (recipe.splitOn " ").filter (· ≠ "")
-    let ev := evalRecipe st toks
+    let ev := evalRecipe st toks impl
     let implN := normalize impl
     let modelN := normalize ev.model
     let specN := ev.spec.map normalize
@@ -62,16 +76,16 @@ partial def loop (h : IO.FS.Stream) (st : DState) (stats : Stats) (lineNo : Nat)
     match specN with
     | some s =>
       stats := { stats with specChecked := stats.specChecked + 1 }
-      if implN ≠ s then
+      if !agrees s implN then
         bad := true
         stats := { stats with implNeSpec := stats.implNeSpec + 1 }
         IO.println s!"NE {lineNo} IMPL_NE_SPEC | {recipe} | impl={impl} | spec={ev.spec.getD ""} | model={ev.model}"
-      else if modelN ≠ s then
+      else if !agrees s modelN then
         bad := true
         stats := { stats with modelNeSpec := stats.modelNeSpec + 1 }
         IO.println s!"NE {lineNo} MODEL_NE_SPEC | {recipe} | impl={impl} | spec={ev.spec.getD ""} | model={ev.model}"
     | none => pure ()
-    if !bad && implN ≠ modelN then
+    if !bad && !agrees modelN implN then
       bad := true
       stats := { stats with implNeModel := stats.implNeModel + 1 }
       IO.println s!"NE {lineNo} IMPL_NE_MODEL | {recipe} | impl={impl} | model={ev.model}"
